@@ -352,7 +352,7 @@ func TestVerif_C19_liverace(t *testing.T) {
 							}
 						})
 					}()
-					n := vh.Pick(400, 4000)
+					n := vh.Pick(200, 4000)
 					for g := 0; g < 4; g++ {
 						g := g
 						workers.Add(1)
